@@ -1,6 +1,7 @@
 """C07 — outputs independent of sibling languages and input order; inputs never mutated."""
 import json, os, re, sys
 from verifkit.core import *
+from verifkit import gen_c07
 
 THEOREMS = [
     "Cog.Merge.C07_merge_union", "Cog.Merge.C07_merge_conflict_iff", "Cog.Merge.C07_group_union",
@@ -11,19 +12,53 @@ THEOREMS = [
     "Cog.Merge.C07_removeIntersections_local", "Cog.Merge.C07_removeIntersections_input_order",
     "Cog.Merge.C07_removeIntersections_unrelated_input", "Cog.Merge.C07_removeIntersections_leaky_order_dependent",
 ]
+# the bodies of Consolidate / Merge / AddObject / NewSchema / SchemaMeta.Equal, translated on this run
+# (extract/xmerge -> Cog.Gen.MergeSrc), compute the model's functions
+SRC_THEOREMS = ["Cog.Merge.C07_src_merge", "Cog.Merge.C07_src_consolidate", "Cog.Merge.C07_src_helpers",
+                "Cog.Merge.C07_source_refines_model"]
+
+
+def source_tie(c):
+    """Regenerate Cog.Gen.MergeSrc from the current internal/ast/schema.go.  A refusal of the translator is a
+    broken obligation (the C07_src_* theorems would otherwise be about a stale program)."""
+    ok, detail = gen_c07.regen()
+    c.oblige("translator extract/xmerge accepts internal/ast/schema.go (Cog.Gen.MergeSrc regenerated)", ok, detail)
+    info = {"regen": detail[:300]}
+    if ok:
+        facts = json.load(open(gen_c07.MERGE_JSON))
+        info["translated"] = [{"name": m["name"], "sha256": m["hash"]} for m in facts["translated"]]
+        info["untranslated"] = facts["untranslated"]
+    c.cov["source_tie"] = info
+    return ok
 
 
 def main():
     c = Check("C07")
     c.trusted = [
         "Lean 4.33 kernel; axioms per theorem in obligation_list",
-        "hand-written model lean/Cog/Merge/Model.lean of Schema.Merge / Schemas.Consolidate (internal/ast/schema.go), tied by the c07-consolidate correspondence stream; Object.Equal modelled as an abstract lawful equality (driver: equality of the VIR rendering)",
+        "hand-written model lean/Cog/Merge/Model.lean of Schema.Merge / Schemas.Consolidate (internal/ast/schema.go), tied (a) by the C07_src_* theorems: the bodies of Schemas.Consolidate, Schema.Merge, Schema.AddObject, NewSchema, SchemaMeta.Equal, translated from the current schema.go on every run, compute the model's functions (compared: nil error + resulting schema(s) / some non-nil error vs the model's single conflict; error text and the half-merged receiver of a failed Merge are not compared); (b) by the c07-consolidate correspondence stream; Object.Equal modelled as an abstract lawful equality (driver: equality of the VIR rendering)",
+        "the translator extract/xmerge (go/ast, syntactic, refuses unknown forms, canonical renaming r/p0../x0.. following Go block scopes with shadowing refused, structs Schema/SchemaMeta pinned to their fields) and the Go semantics given to its mini-language in lean/Cog/Merge/Src.lean (*Schema by value with no aliasing between receiver/locals/argument, Objects = association list whose Has/Get/Set/Iterate are the C19 model's functions, map[string]Schemas as association list by key, slice index / make panics, range / early return / Iterate callback with captured locals, short-circuit && ||, fmt.Errorf as an opaque non-nil error, calls of translated functions taken from the model with the receiver of a failed Merge unusable)",
         "language independence, input-order independence at the level of generated FILES and 'inputs not mutated' for the jennies/veneers stages are decided by differential pipeline runs (c07-pipeline), not by a theorem: partial",
         "aliasing part (Passes.Process copies before transforming) rests on the C18 copy theorem and its regenerated facts",
     ]
     hb, err = build_go("verifharness", "harness", files=HARNESS_BASE + ["c07.go", "c07_frame.go", "c07_pairs.go", "c07_lab.go", "c07_veneers.go", "lab_*.go", "src_*.go", "c16_*.go", "c17_*.go", "vir_builders.go", "c06_*.go"], tag="c07")
     c.oblige("harness builds against /repo working tree", hb is not None, err)
-    c.lean_obligations(THEOREMS)
+    tied = source_tie(c)
+    if tied:
+        n0 = len(c.obligations)
+        if not c.lean_obligations(THEOREMS + SRC_THEOREMS) and not c.obligations[n0][1]:
+            # the build broke: say whether it is the source-equivalence layer (names the function whose
+            # translated body no longer computes the model's function) or the model's own theorems
+            for mod in ("Cog.Merge.Lemmas", "Cog.Merge.SrcEquiv"):
+                ok, out = lake_build((mod,))
+                c.oblige("diagnostic: module %s builds" % mod, ok,
+                         "\n".join(l for l in out.split("\n") if "error" in l)[:1500] if not ok else "")
+    else:
+        # Cog.Gen.MergeSrc is stale: the source theorems are not discharged for this tree; the
+        # correspondence streams below are the search for a concrete failing input
+        c.lean_obligations(THEOREMS)
+        for t in SRC_THEOREMS:
+            c.oblige("theorem " + t, False, "translator refused: generated program is stale")
     if hb is None:
         c.finish("lake build", "n/a")
     if c.replay:
@@ -49,7 +84,7 @@ def main():
                  seed=c.seed, tier=c.tier, classify=cls)
     c.correspond(hb, "c07-nilchecks", nontrivial=lambda r: "injected=0" not in r[1], n=600 if quick else 30000,
                  seed=c.seed, tier=c.tier, classify=cls)
-    c.finish("cd /verif/lean && lake build Cog.Props.C07 drv && lake env lean <#print axioms of the C07_* theorems>",
+    c.finish("python3 tools/regen.py && cd /verif/lean && lake build Cog.Props.C07 drv && lake env lean <#print axioms of the C07_* theorems>",
              "consolidate: random IR split over 1-3 inputs per package with injected conflicting definitions/metadata, model vs Schemas.Consolidate (VIR-equal) plus union-or-conflict oracle; pairs: pinned pairs + a seed-rotated subset (thorough: all) of the pairs of testdata inputs incl. each input against itself under two package names, [A,B] vs [B,A] vs each alone, all seven languages; veneers: 1-2 testdata inputs with generated builder veneer files (every rule kind; all/go/java), each language alone vs all, reversed inputs, the same pipeline run twice; lab: 2-3 generated source schemas (Src grammar, JSON Schema/OpenAPI/CUE, one package each) joint vs reversed vs each alone vs one language alone; pipeline: testdata schemas in random 2-3 input sets, each language alone vs all seven together, permuted inputs, an added unrelated input, VIR snapshot of the loaded schemas around ContextForLanguage; process-frame: random IR through each of the 7 language chains with a VIR snapshot of the input; nilchecks: builders with injected nested-path assignments, each builder alone vs among others vs reversed order; non-trivial = successful merge of >= 3 objects / every pipeline comparison")
 
 
